@@ -158,6 +158,15 @@ func modified(kind string, tmpl []byte) []byte {
 		return out
 	case kind == "longer":
 		return append(append([]byte{}, tmpl...), []byte("\n# local edit that makes the file longer than its template\n[extra]\nvalue = 1\n")...)
+	case strings.HasPrefix(kind, "padto:"):
+		// the template followed by blank lines up to a size that is a whole number of blocks
+		var n int
+		fmt.Sscanf(kind, "padto:%d", &n)
+		out := append([]byte{}, tmpl...)
+		for len(out)%n != 0 || len(out) == len(tmpl) {
+			out = append(out, '\n')
+		}
+		return out
 	case strings.HasPrefix(kind, "trunc:"):
 		var n int
 		fmt.Sscanf(kind, "trunc:%d", &n)
@@ -452,7 +461,7 @@ func checkC18(c C18Case) (nontrivial bool, v *harness.Violation) {
 		return false, harness.NewViolation("C18", "harness", "", "chdir: %v", herr)
 	}
 	for _, st := range c.Factory {
-		if strings.HasPrefix(st, "trunc:") || st == "longer" {
+		if strings.HasPrefix(st, "trunc:") || strings.HasPrefix(st, "padto:") || st == "longer" {
 			nontrivial = nontrivial || len(c.User) > 0
 		}
 	}
@@ -554,13 +563,35 @@ func genC18(t *rapid.T) C18Case {
 		case k < 6:
 			c.Factory[f.Path] = "absent"
 		case k < 9:
-			c.Factory[f.Path] = fmt.Sprintf("trunc:%d", rapid.IntRange(0, len(f.Data)).Draw(t, "truncAt"))
+			at := rapid.IntRange(0, len(f.Data)).Draw(t, "truncAt")
+			// a third of the cuts falls on or next to a block boundary (what a copy interrupted between two blocks leaves), or at
+			// the very ends
+			if rapid.IntRange(0, 2).Draw(t, "truncAtBoundary") == 0 {
+				var cand []int
+				for _, b := range []int{512, 1024, 4096, 8192} {
+					for m := b; m <= len(f.Data)+1; m += b {
+						cand = append(cand, m-1, m, m+1)
+					}
+				}
+				cand = append(cand, 0, 1, len(f.Data)-1)
+				at = rapid.SampledFrom(cand).Draw(t, "truncBoundary")
+				if at > len(f.Data) {
+					at = len(f.Data)
+				}
+				if at < 0 {
+					at = 0
+				}
+			}
+			c.Factory[f.Path] = fmt.Sprintf("trunc:%d", at)
 		case k == 9:
 			c.Factory[f.Path] = "shorter"
 		case k == 10:
 			c.Factory[f.Path] = "same"
 		default:
 			c.Factory[f.Path] = "longer"
+			if rapid.Bool().Draw(t, "padded") {
+				c.Factory[f.Path] = fmt.Sprintf("padto:%d", rapid.SampledFrom([]int{512, 4096, 8192}).Draw(t, "padTo"))
+			}
 		}
 	}
 	for _, d := range []string{"hidi-config/factory", "hidi-config/factory/gamepad", "hidi-config/factory/keyboard"} {
